@@ -192,6 +192,8 @@ def reader_features(prog: Program, cls) -> set[str]:
             for s in T.walk(tm):
                 if s[0] == "sub" and s[1] in (C.sattr("t"), C.sattr("origin")):
                     feats.add("by-name")
+                if s[0] == "attr" and s[1] in (C.sattr("t"), C.sattr("origin")) and s[2] in ("__members__", "_member_map_", "_member_names_"):
+                    feats.add("by-name")
         if p.exit[0] == "return":
             r = p.exit[1]
             if r == ("param", "val"):
